@@ -156,7 +156,7 @@ def gen(rng, tier, index):
         links.append({"n": nts, "resolved": int(e), "threshold": thr})
     past = None
     if not exhaustive and rng.random() < 0.3:  # the chain's estimator was cold-fitted before on other data of the same shape
-        past = {"X": rng.normal(size=X.shape) * unit, "y": None if y is None else rng.normal(size=len(X)), "n": int(rng.integers(1, min(N, nfin + 3) + 1))}
+        past = {"X": vforms.sibling_or(X * unit, rng.normal(size=X.shape), unit), "y": None if y is None else rng.normal(size=len(X)), "n": int(rng.integers(1, min(N, nfin + 3) + 1))}
     carry = [gens.pick(rng, vforms.CARRY) if not exhaustive else "same" for _ in sch]
     readers = bool(rng.random() < 0.5)  # the fitted state is read through the public accessors between two links
     if not exhaustive and unit == 1.0 and cls in ("CUR", "FPS") and rng.random() < 0.25:
